@@ -146,6 +146,10 @@ def plan(tier, seed):
         ('lambda-builtin-param', doc({'tag': 'p', 'define': [['local', 'g', py('lambda max: max')]],
                                       'children': [{'interp': py('g(k)')}, '|', {'interp': py('max')}]}),
          [['max', 'int', 0], ['k', 'int', 1]]),
+        ('lambda-nested', doc({'tag': 'p', 'children': [{'interp': py('(lambda a: (lambda b: a + b + k))(1)(2)')}, '|',
+                                                       {'interp': py('(lambda a: [(lambda: a + q)() for q in (1, 2)])(k)')}, '|',
+                                                       {'interp': {'pipe': [py('a'), py("'unbound'")]}}]}),
+         [['a', 'maybe', 0], ['k', 'int', 1]]),
         ('fstring', doc({'tag': 'p', 'children': [{'interp': py("f'{k}-{k + 1}' + '%d' % k")}]}),
          [['k', 'int', 1]]),
         ('comprehension', doc({'tag': 'p', 'children': [{'interp': py('[q + k for q in (1, 2)]')}, '|',
